@@ -27,6 +27,7 @@ type c13Expect struct {
 	consulted          int
 	busyBefore, busyAt int
 	desc               string
+	ignoreCtx          bool
 }
 
 const ms = int64(time.Millisecond)
@@ -34,7 +35,7 @@ const ms = int64(time.Millisecond)
 func c13Scenario(kind string) *mc.Scenario {
 	return &mc.Scenario{
 		Name:   "C13/grid/" + kind,
-		Params: "arrival in {0,5} ms, bound D in {10,20} ms, cancel in {none,pre,5,D-1,D,D+1}, release in {none,D-1,D,D+1}; limit 1 held",
+		Params: "arrival in {0,5} ms, bound D in {10,20} ms, context bound (explicit cancel or context deadline) in {none,pre,5,D-1,D,D+1}, release in {none,D-1,D,D+1}; limit 1 held",
 		Cfg:    vrt.Config{MaxSteps: 4000, Horizon: 200 * ms},
 		Body: func(x *mc.Exec) {
 			e := &c13Expect{kind: kind}
@@ -45,15 +46,20 @@ func c13Scenario(kind string) *mc.Scenario {
 			trMenu := []int64{-1, e.d - 1, e.d, e.d + 1}
 			e.tc = tcMenu[vrt.Choose(len(tcMenu))]
 			e.tr = trMenu[vrt.Choose(len(trMenu))]
+			// the bound on the context is either an explicit cancel() at tc or a context deadline at tc
+			byDeadline := e.tc >= 0 && vrt.Choose(2) == 1
 			fam := map[string]string{"blocking0": "blocking", "blocking7": "blocking", "deadline": "deadline", "queue-fifo": "queue",
 				"queue-lifo-evict": "queue"}[kind]
 			if fam == "blocking" && e.tc < 0 && e.tr < 0 {
 				return // unbounded wait by design: nothing to check
 			}
-			if fam == "queue" && kind == "queue-fifo" && e.tc >= 0 && e.tc != 0 {
-				// cancellation does not bound this limiter (eviction off): covered as "no cancel"
-				e.tc = -1
+			ignoreCtx := false
+			if fam == "queue" && kind == "queue-fifo" && e.tc >= 0 {
+				// cancellation does not bound this limiter (eviction off): the context is still cancelled /
+				// carries its deadline, but the expectation is that of "no cancel"
+				ignoreCtx = true
 			}
+			e.ignoreCtx = ignoreCtx
 			bk := kind
 			if kind == "blocking7" {
 				bk = "blocking50"
@@ -66,9 +72,16 @@ func c13Scenario(kind string) *mc.Scenario {
 				x.Fail("setup", "holder could not acquire")
 				return
 			}
-			ctx, cancel := vctx.WithCancel(waiterCtx(0))
-			if e.tc == 0 {
-				cancel() // pre-cancelled
+			var ctx vctx.Context
+			var cancel vctx.CancelFunc
+			if byDeadline {
+				ctx, cancel = vctx.WithDeadline(waiterCtx(0), vtime.VirtualOf(e.tc*ms))
+				e.desc += " ctx=deadline"
+			} else {
+				ctx, cancel = vctx.WithCancel(waiterCtx(0))
+				if e.tc == 0 {
+					cancel() // pre-cancelled
+				}
 			}
 			var ths []*vrt.Thread
 			caller := vrt.GoL("caller", func() {
@@ -90,7 +103,7 @@ func c13Scenario(kind string) *mc.Scenario {
 					l.OnSuccess()
 				}
 			})
-			if e.tc > 0 {
+			if e.tc > 0 && !byDeadline {
 				ths = append(ths, vrt.GoL("canceller", func() { vtime.Sleep(time.Duration(e.tc * ms)); cancel() }))
 			}
 			if e.tr >= 0 {
@@ -112,6 +125,9 @@ func c13Scenario(kind string) *mc.Scenario {
 
 func c13Check(x *mc.Exec, e *c13Expect, r *vrt.Result) {
 	fam := map[string]string{"blocking0": "blocking", "blocking7": "blocking", "deadline": "deadline", "queue-fifo": "queue", "queue-lifo-evict": "queue"}[e.kind]
+	if e.ignoreCtx {
+		e.tc = -1
+	}
 	ta, d, tc, tr := e.ta*ms, e.d*ms, e.tc*ms, e.tr*ms
 	x.Observe("%s -> returned=%v granted=%v at=%d consulted=%d", e.desc, e.returned, e.granted, e.retClock, e.consulted)
 	// immediate refusals that must not touch capacity
@@ -202,7 +218,7 @@ func c13Check(x *mc.Exec, e *c13Expect, r *vrt.Result) {
 }
 
 func runC13(c *Ctx) {
-	opt := mc.Options{PreemptBound: c.Pick(1, 2)}
+	opt := mc.Options{PreemptBound: c.Pick(2, 3)}
 	for _, kind := range []string{"deadline", "blocking0", "blocking7", "queue-fifo", "queue-lifo-evict"} {
 		c.Explore(c13Scenario(kind), opt)
 	}
